@@ -428,7 +428,7 @@ theorem args_ok_noClient (known : List Cls) (env : Env) (hok : env.Ok known) (l 
 /-- a site that passes the table check, is emitted and is not exempt renders no client address -/
 theorem site_ok_noClient (tbl : List (Level × Bool)) (known : List Cls) (s : Site) (h : s.ok tbl known = true)
     (hem : emittedBy tbl s.level = true)
-    (hex : exemptFormats.contains s.format = false) (env : Env) (hok : env.Ok known) :
+    (hex : s.exempt = false) (env : Env) (hok : env.Ok known) :
     noClient (renderSite env s) = true := by
   simp only [Site.ok, hem, hex, Bool.not_true, Bool.false_or, List.all_eq_true] at h
   exact args_ok_noClient known env hok s.args h
